@@ -151,6 +151,7 @@ struct ctx
 	int magic;
 };
 static struct ctx CTX;
+static int DELMODE; /* visitdel: delete the member whose first call is answered with SKIP */
 static char *LOG;
 static size_t logLen, logCap;
 
@@ -207,6 +208,13 @@ static int userfunc(json_object *jso, int flags, json_object *parent_jso, const 
 	if (jso_index)
 		logf_("i%zu", *jso_index);
 	logf_("=%d", code);
+	if (DELMODE && flags == 0 && code == JSON_C_VISIT_RETURN_SKIP && parent_jso && jso_key &&
+	    json_object_get_type(parent_jso) == json_type_object)
+	{
+		json_object_object_del(parent_jso, jso_key); /* allowed while iterating: the member being visited */
+		if (id >= 0)
+			N[id].key = NULL, N[id].parent = -2, N[id].ptr = (struct json_object *)&N[id]; /* gone: never matched again */
+	}
 	return code;
 }
 
@@ -220,7 +228,8 @@ int main(void)
 			continue;
 		}
 		hc_split();
-		if ((NW != 3 && NW != 4) || strcmp(W[0], "visit") != 0)
+		DELMODE = NW == 3 && !strcmp(W[0], "visitdel");
+		if ((NW != 3 && NW != 4) || (strcmp(W[0], "visit") != 0 && !DELMODE))
 		{
 			puts("bad-op");
 			fflush(stdout);
@@ -245,8 +254,12 @@ int main(void)
 		logLen = 0;
 		logf_("%s", "");
 		int ret = json_c_visit(root, ff, userfunc, &CTX);
-		printf("ret=%d calls=%ld%s ## size=%d same=", ret, CTX.calls, LOG, nN);
+		if (DELMODE)
+			printf("ret=%d calls=%ld%s ## deleted\n", ret, CTX.calls, LOG);
+		else
+			printf("ret=%d calls=%ld%s ## size=%d same=", ret, CTX.calls, LOG, nN);
 		/* dump again and compare with the input text */
+		if (!DELMODE)
 		{
 			fflush(stdout);
 			char *buf = NULL;
